@@ -156,7 +156,7 @@ func genURL(r *hk.Rand) urlSpec {
 		u.Class = "malformed"
 	}
 	if u.Relative {
-		u.BasePath = hk.Pick(r, []string{"", "", "/api", "/api/v1", "/base%20path", "/"})
+		u.BasePath = hk.Pick(r, []string{"", "", "/api", "/api/v1", "/base%20path", "/", "/base path", "/bäse/v1", "/a|b"})
 		u.NoSlash = r.Chance(15)
 	}
 	var keys []string
